@@ -33,6 +33,7 @@ class Contract:
     block: tuple = ()                # block contract: (first assigned name, last assigned name)
     custom: object = None            # callable(verifier, contract, fdef, consts) -> obligations
     tag: str = ''                    # distinguishes several contracts on one function
+    relate: dict = None              # relational (two-run) contract: {'extra': {name: spec}, 'second': {param: CL}}
 
     @property
     def file(self):
